@@ -386,7 +386,11 @@ func (x *exec) do(op Op) *hx.Verdict {
 		res, ok := x.runSimple(func() error {
 			p := scope.ChildParams{}
 			if op.Iso {
-				cs = contextscope.NewIsolated(x.sc[op.S])
+				if op.Bare {
+					cs = contextscope.NewIsolated(x.sc[op.S].BaseContextScope())
+				} else {
+					cs = contextscope.NewIsolated(x.sc[op.S])
+				}
 				p.ContextScope = cs
 			}
 			if x.ioc != nil {
@@ -403,7 +407,7 @@ func (x *exec) do(op Op) *hx.Verdict {
 		if res.panicked {
 			return x.fail("panic", "NewChild of open, not-done scope %d panicked: %s", op.S, res.pmsg)
 		}
-		s := m.child(op.S, op.Iso)
+		s := m.child(op.S, op.Iso, op.Bare)
 		x.sc = append(x.sc, ch)
 		if x.ioc != nil {
 			x.ioc = append(x.ioc, chIO)
@@ -411,6 +415,15 @@ func (x *exec) do(op Op) *hx.Verdict {
 		if op.Iso {
 			x.cx = append(x.cx, cs)
 			x.label("isolated-child")
+			if op.Bare {
+				x.label("isolated-from-bare-parent-context")
+			}
+			if m.sc[op.S].ctx != 0 {
+				x.label("isolated-below-isolated")
+				if op.Bare {
+					x.label("isolated-chain-from-bare-isolated-context")
+				}
+			}
 		} else {
 			x.label("shared-child")
 		}
@@ -456,6 +469,15 @@ func (x *exec) do(op Op) *hx.Verdict {
 	case "err", "kill", "stop":
 		c := m.sc[op.S].ctx
 		either := false
+		midWithLeaf, midBare := false, false
+		if c != 0 && !m.cx[c].done {
+			for _, k := range m.cx[c].kids {
+				if !m.cx[k].done {
+					midWithLeaf = true
+					midBare = midBare || m.cx[k].bare
+				}
+			}
+		}
 		switch op.K {
 		case "err":
 			m.failIn(op.S)
@@ -496,6 +518,13 @@ func (x *exec) do(op Op) *hx.Verdict {
 		if m.sc[op.S].issued {
 			x.label(op.K + "-while-close-waits")
 			x.label("failure-reported-while-close-waits")
+		}
+		if midWithLeaf {
+			x.label("intermediate-isolated-ended-with-live-isolated-leaf")
+			x.label(op.K + "-on-intermediate-isolated")
+			if midBare {
+				x.label("intermediate-isolated-ended-with-live-bare-leaf")
+			}
 		}
 		if either {
 			x.label("stop-listener-error(either)")
@@ -831,7 +860,12 @@ func (x *exec) settle() *hx.Verdict {
 			t.Stop()
 		case <-t.C:
 			expired.Store(true)
-			return x.fail("isolated-child-stopped-with-parent", "isolated context %d is not done although its parent context is", c)
+			how := "built from the parent scope"
+			if m.cx[c].bare {
+				how = "built from the parent's bare context"
+			}
+			return x.fail("isolated-child-stopped-with-parent", "isolated context %d (%s) is not done although its direct parent context %d (isolated itself: %v) is",
+				c, how, m.cx[c].parent, m.cx[c].parent != 0)
 		}
 		if len(x.cx[c].Errors()) > 0 {
 			m.cx[c].err = yes
